@@ -1,3 +1,4 @@
+pub mod c01;
 pub mod c20;
 
 use crate::report::{Args, Report};
@@ -5,6 +6,7 @@ use crate::report::{Args, Report};
 pub fn dispatch(args: &Args, rep: &mut Report) -> bool {
     match args.engine.as_str() {
         "noop" => {}
+        "c01" => c01::run(args, rep),
         "c20" => c20::run(args, rep),
         _ => return false,
     }
